@@ -46,7 +46,9 @@ def line_ops(g, l):
         ops += [("neighbours", lambda: l.neighbours), ("dovetails", lambda: l.dovetails), ("dovetails_L", lambda: l.dovetails_of_end("L")), ("dovetails_R", lambda: l.dovetails_of_end("R")),
                 ("containers", lambda: l.containers), ("contained", lambda: l.contained), ("edges", lambda: l.edges), ("connectivity", lambda: l._connectivity()),
                 ("paths", lambda: l.paths), ("length", lambda: l.length), ("to_str_wo", lambda: l.to_str_without_sequence() if hasattr(l, "to_str_without_sequence") else None),
-                ("neighbours_L", lambda: l.neighbours_of_end("L")), ("relations", lambda: [l.relations_to(o) for o in g.segments])]
+                ("neighbours_L", lambda: l.neighbours_of_end("L")), ("relations", lambda: [l.relations_to(o) for o in g.segments]),
+                ("oriented_relations", lambda: [str(e) for o in "+-" for other in g.segments for oo in "+-" for e in l.oriented_relations(o, gfapy.OrientedLine(other, oo))]),
+                ("end_relations", lambda: [str(e) for x in "LR" for other in g.segments for y in "LR" for e in l.end_relations(x, gfapy.SegmentEnd(other, y))])]
     if rt in ("L", "C", "E"):
         ops += [("from_end", lambda: l.from_end), ("to_end", lambda: l.to_end), ("is_circular", lambda: l.is_circular()), ("other", lambda: l.other(l.from_segment)),
                 ("oriented_from", lambda: l.oriented_from), ("is_dovetail", lambda: l.is_dovetail()), ("is_containment", lambda: l.is_containment())]
